@@ -13,6 +13,7 @@ import Proofs.UndoFit
 import Proofs.MarkupSuccess
 import Proofs.HistoryUndo
 import Proofs.MarkHistory
+import Proofs.InvertOk
 import Props.C01
 namespace PM.C04
 open PM
@@ -1792,8 +1793,8 @@ theorem docAttr_undo_exact (S : Schema) (t : TypeId) (a : Attrs) (m : Marks) (ki
 def FamilyInv (S : Schema) (d : Node) : Prop := S.checkNode d = true ∧ fnorm d.kids = true
 
 /-- **what a recorded step has to satisfy, by kind** (`d` the document it was applied to, `d'` its result).
-    Common to several kinds: `∃ inv, S.invert s d = .ok inv` — `Step.invert` does not raise (oracle
-    `invert-raises`); `s.undoAligned d'` — the pair-alignment proviso of the inverse.
+    Common to several kinds: `s.undoAligned d'` — the pair-alignment proviso of the inverse.  (That
+    `Step.invert` does not raise — oracle `invert-raises` — is no hypothesis: `invert_ok_of_apply`.)
     * replace: the slice is in normal form and a valid payload (`C01.PayloadValid`);
     * replace-around: slice in normal form and well formed, `insert ≤ slice.size`, ordered gap, valid
       payload; **`hst`** — when the structure flag is set, the two `content_between` checks of the inverse
@@ -1803,15 +1804,16 @@ def FamilyInv (S : Schema) (d : Node) : Prop := S.checkNode d = true ∧ fnorm d
       `wrap`, `set_node_markup` emit; otherwise finding C04-around-text-gap);
     * add-mark / remove-mark: the exact guard of the naive inverse (`addMarkUndoable` /
       `removeMarkUndoable`; the planners' steps satisfy it: `planGuard_family`);
-    * attr / doc-attr: every node carries its attributes as `compute_attrs` builds them (`attrsOk`);
+    * attr / doc-attr: every node carries its attributes as `compute_attrs` builds them (`attrsOk`), and the
+      node carries the named attribute (its type declares it: the property's scope for attribute steps);
     * node marks: `attrsOk` and the three guards of `nodeMark_undo` (finding C04-node-mark-inverse). -/
 def FamilyGuard (S : Schema) (s : Step) (d d' : Node) : Prop :=
   match s with
   | .replace _ _ sl _ =>
-    fnorm sl.content = true ∧ C01.PayloadValid S d s ∧ (∃ inv, S.invert s d = .ok inv) ∧ s.undoAligned d'
+    fnorm sl.content = true ∧ C01.PayloadValid S d s ∧ s.undoAligned d'
   | .replaceAround f t gf gt sl ins b =>
     fnorm sl.content = true ∧ sl.wf = true ∧ (ins : Int) ≤ sl.size ∧ (f ≤ gf ∧ gf ≤ gt ∧ gt ≤ t) ∧
-    C01.PayloadValid S d s ∧ (∃ inv, S.invert s d = .ok inv) ∧
+    C01.PayloadValid S d s ∧
     (b = true → contentBetween d' f (f + ins) = some false ∧
       contentBetween d' (f + ins + (gt - gf)) (f + sl.size.toNat + (gt - gf)) = some false) ∧
     (∀ old, d.slice f t = .ok old →
@@ -1819,15 +1821,16 @@ def FamilyGuard (S : Schema) (s : Step) (d d' : Node) : Prop :=
     s.undoAligned d'
   | .addMark f t m => addMarkUndoable S d f t m = true ∧ s.undoAligned d'
   | .removeMark f t m => removeMarkUndoable S d f t m = true ∧ s.undoAligned d'
-  | .attr _ _ _ => attrsOk S d = true ∧ (∃ inv, S.invert s d = .ok inv)
-  | .docAttr _ _ => attrsOk S d = true ∧ (∃ inv, S.invert s d = .ok inv)
+  | .attr pos name _ =>
+    attrsOk S d = true ∧ (∀ n, d.nodeAt pos = .ok (some n) → (n.attrs.find? (·.1 == name)).isSome = true)
+  | .docAttr name _ => attrsOk S d = true ∧ (d.attrs.find? (·.1 == name)).isSome = true
   | .addNodeMark pos m =>
-    attrsOk S d = true ∧ (∃ inv, S.invert s d = .ok inv) ∧
+    attrsOk S d = true ∧
     (∀ n, d.nodeAt pos = .ok (some n) → n.marks.length ≤ (m.addToSet S n.marks).length) ∧
     (∀ n, d.nodeAt pos = .ok (some n) → ∀ x ∈ n.marks, ∀ y ∈ n.marks, x.ty = y.ty → x = y) ∧
     (∀ n, d.nodeAt pos = .ok (some n) → ∀ x ∈ n.marks, S.excludes m.ty x.ty = true → S.excludes x.ty m.ty = true)
   | .removeNodeMark pos _ =>
-    attrsOk S d = true ∧ (∃ inv, S.invert s d = .ok inv) ∧
+    attrsOk S d = true ∧
     (∀ n, d.nodeAt pos = .ok (some n) → ∀ x ∈ n.marks, ∀ y ∈ n.marks, x.ty = y.ty → x = y)
 
 /-- a step recorded by `add_mark` / `remove_mark` satisfies its `FamilyGuard`, given the same-type
@@ -1852,11 +1855,13 @@ theorem family_step (S : Schema) (htr : compatTransB S = true) (hts : TextLoop S
   obtain ⟨hv, hn⟩ := hI
   cases s with
   | replace f t sl b =>
-    obtain ⟨hsn, hp, ⟨inv, hi⟩, ha⟩ := hg
+    obtain ⟨hsn, hp, ha⟩ := hg
+    obtain ⟨inv, hi⟩ := invert_ok_replace S d d' f t sl b hn h
     exact ⟨⟨inv, hi, replace_undo_transitive S d d' f t sl b inv htr hv hn hsn h hi ha⟩,
       C01.apply_valid S (.replace f t sl b) d d' hv hp h, apply_norm S (.replace f t sl b) d d' hsn hn h⟩
   | replaceAround f t gf gt sl ins b =>
-    obtain ⟨hsn, hwf, hins, hgo, hp, ⟨inv, hi⟩, hst, hclean, ha1, ha2, ha3, ha4⟩ := hg
+    obtain ⟨hsn, hwf, hins, hgo, hp, hst, hclean, ha1, ha2, ha3, ha4⟩ := hg
+    obtain ⟨inv, hi⟩ := invert_ok_replaceAround S d d' f t gf gt sl ins b hn hgo h hclean
     have hj : sidesCompatibleAround S d f t gf gt sl ins = true := by
       obtain ⟨gap, inserted, hgap, _, _, hinst, hfr1⟩ := apply_replaceAround_parts S d d' f t gf gt sl ins b h
       obtain ⟨ty, a, m, K, K', rfl, rfl, hr1⟩ := fromReplace_elem S d d' f t inserted hfr1
@@ -1873,16 +1878,22 @@ theorem family_step (S : Schema) (htr : compatTransB S = true) (hts : TextLoop S
     have k := removeMark_keepsAll S d d' f t m h
     exact ⟨removeMark_stepUndoes S hts d d' f t m hv hn h hg.1 hg.2, k.valid hts.stable hv, k.norm hn⟩
   | attr pos name value =>
-    obtain ⟨ha, inv, hi⟩ := hg
+    obtain ⟨ha, hcar⟩ := hg
+    obtain ⟨inv, hi⟩ := attr_invert_ok S d d' pos name value h hcar
     obtain ⟨n, u, _, hu, hr⟩ := apply_attr_parts S d d' pos name value h
     exact ⟨⟨inv, hi, attr_undo S d d' pos name value inv hn hv ha h hi⟩,
       C01.apply_valid S (.attr pos name value) d d' hv trivial h, nodeStep_norm S d d' n u pos _ _ hn hu hr⟩
   | docAttr name value =>
-    obtain ⟨ha, inv, hi⟩ := hg
+    obtain ⟨ha, hcar⟩ := hg
     cases d with
     | text _ _ => simp [Schema.apply] at h
     | leaf _ _ _ => simp [Schema.apply] at h
     | elem t a m kids =>
+      obtain ⟨inv, hi⟩ : ∃ inv, S.invert (.docAttr name value) (.elem t a m kids) = .ok inv := by
+        simp only [Schema.invert, Node.attrs] at hcar ⊢
+        cases hf : a.find? (·.1 == name) with
+        | none => simp [hf] at hcar
+        | some q => exact ⟨_, rfl⟩
       have hca : computeAttrs (S.nodeType t).attrs a = .ok a := by
         have := attrsOk_compute (n := .elem t a m kids) ha rfl
         simpa [Node.headTok, Tok.ty, Node.attrs] using this
@@ -1899,13 +1910,15 @@ theorem family_step (S : Schema) (htr : compatTransB S = true) (hts : TextLoop S
         subst h
         exact hn
   | addNodeMark pos m =>
-    obtain ⟨ha, ⟨inv, hi⟩, hdis, hty, hsym⟩ := hg
+    obtain ⟨ha, hdis, hty, hsym⟩ := hg
+    obtain ⟨inv, hi⟩ := invert_ok_addNodeMark S d d' pos m h
     obtain ⟨n, u, _, hu, hr⟩ := apply_addNodeMark_parts S d d' pos m h
     exact ⟨⟨inv, hi, nodeMark_undo S d d' pos m inv true hn hv ha h hi (fun n hn _ => hdis n hn) hty
         (fun n hn _ => hsym n hn)⟩,
       C01.apply_valid S (.addNodeMark pos m) d d' hv trivial h, nodeStep_norm S d d' n u pos _ _ hn hu hr⟩
   | removeNodeMark pos m =>
-    obtain ⟨ha, ⟨inv, hi⟩, hty⟩ := hg
+    obtain ⟨ha, hty⟩ := hg
+    obtain ⟨inv, hi⟩ := invert_ok_removeNodeMark S d d' pos m h
     obtain ⟨n, u, _, hu, hr⟩ := apply_removeNodeMark_parts S d d' pos m h
     exact ⟨⟨inv, hi, nodeMark_undo S d d' pos m inv false hn hv ha h hi (fun _ _ hc => by cases hc) hty
         (fun _ _ hc => by cases hc)⟩,
@@ -1969,7 +1982,7 @@ example : tinyS.unwind ([Step.replace 2 3 tinySl false].zip [tinyDoc]) tinyDoc' 
     (by decide) ?_ ?_ ?_).1
   · simp [tinyDoc, Node.kids, fnorm, fnormKids, Node.norm, chainOk, adjOk]
   · simp [replay, tiny_fwd]
-  · refine ⟨⟨?_, ?_, ⟨_, tiny_inv⟩, ?_⟩, trivial⟩
+  · refine ⟨⟨?_, ?_, ?_⟩, trivial⟩
     · simp [tinySl, fnorm, fnormKids, Node.norm, chainOk]
     · show openValid tinyS tinySl.openStart tinySl.openEnd tinySl.content = true
       simp [tinySl, openValid, rightOpenValid, Schema.checkKids, Schema.checkNode]
